@@ -133,6 +133,27 @@ theorem repo_not_correct_nil_before_mustcheck :
 example : eqS { opts := exclP } exNode "" exA exD = .must ∧
     deqM { cfg := GenCfg.fixed, opts := exclP } exNode .ptr .ptr exA exD = .t ∧
     deqM { cfg := GenCfg.repo, opts := exclP } exNode .ptr .ptr exA exD = .f := by decide
+/-- Pointer-typed map keys of independent objects (`ident := false`): `map[*int32]*int64`. The nil key equals
+itself, any other pointer key is never found; the answers stay symmetric, also with the nil key on one side only. -/
+def pkNode : Node := .map { typn := "PK" } (.basic { typn := "int32", typu := "int32", ptr := true })
+  (.basic { typn := "int64", typu := "int64", ptr := true })
+def pkNil3 : Val := .map false [.nilptr] [.ptr (.int 3)]
+def pkNil4 : Val := .map false [.nilptr] [.ptr (.int 4)]
+def pkP3 : Val := .map false [.ptr (.int 1)] [.ptr (.int 3)]
+def pkBoth : Val := .map false [.nilptr, .ptr (.int 1)] [.ptr (.int 3), .ptr (.int 3)]
+def pkBoth' : Val := .map false [.ptr (.int 2), .nilptr] [.ptr (.int 3), .ptr (.int 3)]
+example : RootOK pkNode = true ∧ EmitOK pkNode = true ∧ PathNamesOK pkNode = true ∧ WT pkNode pkNil3 = true ∧
+    WT pkNode pkP3 = true ∧ WT pkNode pkBoth = true ∧ WT pkNode pkBoth' = true ∧
+    MapKeysOK pkNil3 = true ∧ MapKeysOK pkP3 = true ∧ MapKeysOK pkBoth = true ∧ MapKeysOK pkBoth' = true := by decide
+example : deqM { cfg := GenCfg.fixed } pkNode .ptr .ptr pkNil3 pkNil3 = .t ∧
+    deqM { cfg := GenCfg.fixed } pkNode .ptr .ptr pkNil3 pkNil4 = .f ∧
+    deqM { cfg := GenCfg.fixed } pkNode .ptr .ptr pkNil3 pkP3 = .f ∧
+    deqM { cfg := GenCfg.fixed } pkNode .ptr .ptr pkP3 pkNil3 = .f ∧
+    deqM { cfg := GenCfg.fixed } pkNode .ptr .ptr pkP3 pkP3 = .f ∧
+    deqM { cfg := GenCfg.fixed } pkNode .ptr .ptr pkBoth pkBoth' = .f ∧
+    deqM { cfg := GenCfg.fixed } pkNode .ptr .ptr pkBoth' pkBoth = .f ∧
+    deqM { cfg := GenCfg.fixed, ident := true } pkNode .ptr .ptr pkBoth pkBoth = .t ∧
+    eqS {} pkNode "" pkNil3 pkNil3 = .either := by decide
 end NonVacuity
 
 section Necessity
